@@ -25,5 +25,17 @@ def safeIdx (comps : List (String × String)) (i : Nat) : Bool :=
   | some (n, _) => safeNames.contains n
   | none => false
 
+/-! ### a goroutine outside the call (`Close`, `IsClosed`) against the call (`Do`, `Ping`): field level -/
+
+/-- (function, field of `*Client`, the field itself is re-assigned, inside a function that takes a lock) -/
+abbrev FieldOp := Nat × String × Bool × Bool
+
+/-- the same field, at least one side re-assigns it, and not both under a lock -/
+def fieldConflict (a b : FieldOp) : Bool :=
+  a.2.1 == b.2.1 && (a.2.2.1 || b.2.2.1) && !(a.2.2.2 && b.2.2.2)
+
+def foreignFree (callers foreign : List FieldOp) : Bool :=
+  callers.all fun a => foreign.all fun b => !fieldConflict a b
+
 end Ownership
 end Model
